@@ -77,6 +77,8 @@ def lean_ops(ops: list, rng) -> str:
             out.append(f"mc;{op[1]};{op[2]}")
         elif k == "pk":
             out.append(f"pk;{op[1]};{op[2]};{pick}")
+        elif k == "bk":
+            out += [f"mi;{op[1]};{c};{rng.randint(0, 2)}" for c in op[2]]
         elif k in ("dr", "pd", "ep"):
             out.append(f"{k};{op[1]}")
         elif k == "gc":
@@ -202,6 +204,28 @@ def gen_churn(rng, W) -> list:
     return ops
 
 
+def gen_capacity(rng, W, n: int) -> list:
+    """cache capacity: transformers are requested, their CRS objects dropped, then thousands of further distinct
+    specs pass through the process (`_crs_cache` must keep growing: its length is compared with the model's, one
+    entry per distinct key) and every new CRS whose pyproj object lands on an address mentioned by a transformer
+    key, while the object that owned it is gone, is asked for its transformer (checked against pyproj)."""
+    codes = list(W.codes)
+    rng.shuffle(codes)
+    sy = lambda c: W.einfo[c]["sys"]  # noqa: E731
+    ops = []
+    for i, c in enumerate(codes[:5]):
+        ops += [["mi", 0, c, sy(c)], ["mi", 1, codes[5], sy(codes[5])], ["tr", 0, 1, True], ["tr", 1, 0, True]]
+    ops += [["dr", 0], ["gc"]]
+    bulk = W.bulk_codes(n, rng)
+    k = len(bulk) // 2
+    ops += [["bk", 0, bulk[:k]], ["dr", 0], ["gc"]]
+    # the first specs again: same strings, same transformers as at the beginning
+    for c in codes[:3]:
+        ops += [["mi", 0, c, sy(c)], ["tr", 0, 1, True]]
+    ops += [["dr", 0], ["gc"], ["bk", 0, bulk[k:]], ["dr", 0], ["gc"]]
+    return ops
+
+
 def known_collision_spec(W, spec) -> bool:
     """input class of finding F16: a pyproj object (or dict → pyproj object) used as a cache key, or the text
     that is the to_wkt() of such an object"""
@@ -316,6 +340,9 @@ def part_a(R: Run):
         jobs.append((f"corpus-{i}", ops))
     for i in range(R.pick(3, 12)):
         jobs.append((f"churn-{i}", gen_churn(rng, W)))
+    for i in range(R.pick(1, 3)):
+        jobs.append((f"capacity-{i}", gen_capacity(rng, W, R.pick(3000, 5000))))
+    _, es_big = W.lean_tables()   # the capacity histories added codes (table used for those lines only)
     nproc = R.pick(36, 400)
     for i in range(nproc):
         jobs.append((f"rand-{i}", gen_history(rng, W, R.pick(34, 40), R.pick(3, 4))))
@@ -327,18 +354,18 @@ def part_a(R: Run):
     hist_ops: Dict[str, list] = {}
     for (hid, ops), res in zip(jobs, results):
         hist_ops[hid] = ops
-        line = f"c19 hist {ts} {es} {lean_ops(ops, rng)}"
+        line = f"c19 hist {ts} {es_big if hid.startswith('capacity') else es} {lean_ops(ops, rng)}"
         if isinstance(res, str):
             R.corr(line, lambda r=res: r, sig="hist|worker-error")
             continue
         real = ",".join(res["obs"]) + f" cache={res['cache']} tcache={res['tcache']}"
         kinds = {o[0] for o in ops}
         sig = "hist|" + ("single" if hid.startswith("single") else "corpus" if hid.startswith("corpus") else
-                       "churn" if hid.startswith("churn") else "random") \
+                       "churn" if hid.startswith("churn") else "capacity" if hid.startswith("capacity") else "random") \
             + ("|gc" if "gc" in kinds else "") + ("|pyproj-key" if kinds & {"mp", "md"} else "") \
             + ("|err" if any(o.startswith("ERR") for o in res["obs"]) else "")
         R.corr(line, lambda r=real: r, sig=sig)
-        R.count("hist-ops", len(ops))
+        R.count("hist-ops", sum(len(o[2]) if o[0] == "bk" else 1 for o in ops))
         judge_records(R, W, ops, res, fresh, hid)
 
     # history-freedom: the string form (hence hash and token) of CRS(spec) is the same in every history
